@@ -132,6 +132,27 @@ def atoms_of_tree(r, name):
     return [r]
 
 
+def fold_leaves(sem, tid, opname, under_div=False):
+    """input-leaf names along the left spine of a raw (uninterpreted) fold term, or a description of where the shape breaks"""
+    if tid is None: return 'no term'
+    t = sem.terms[tid]
+    if under_div:
+        if t[0] == 'op' and 'Div::div' in t[1] and len(t[2]) == 2: tid = t[2][0]
+        else: return 'not a quotient'
+    out = []
+    cur = tid
+    for _ in range(200):
+        t = sem.terms[cur]
+        if t[0] == 'op' and opname in t[1] and len(t[2]) == 2:
+            r = sem.terms[t[2][1]]
+            if r[0] != 'in': return 'right operand of the fold is not a single element: %s' % (r[1] if r[0] == 'op' else r,)
+            out.append(r[1]); cur = t[2][0]
+        elif t[0] == 'in':
+            out.append(t[1]); break
+        else: return 'unexpected term %s' % (t[1],)
+    return out[::-1]
+
+
 def run(ctx):
     ctx.level = 'proof'
     ctx.explanation = ('Every operator form, reduction, comparison mask, map/apply/zip, constructor and conversion of every enabled vector type is interpreted '
@@ -182,6 +203,13 @@ def run(ctx):
                 else:
                     e = A[0]
                     for x in A[1:]: e = sop(f, 'i32', e, x)
+                if f in ('sum', 'product', 'average'):
+                    # shape of the fold on the uninterpreted term: the documented form e0 op e1 op e2 ... (left-associative, like Iterator::sum),
+                    # which also fixes float rounding and which intermediate results exist for integers
+                    tid = p.d['ret'].get('t') if isinstance(p.d.get('ret'), dict) else None
+                    names = fold_leaves(rs.sem, tid, 'Mul::mul' if f == 'product' else 'Add::add', f == 'average')
+                    want = ['a0.%s' % fl for fl in flds]
+                    ctx.ob(key + '/left-fold', names == want, 'shape: %s combines the elements as ((e0 op e1) op e2) ... in element order (the grouping of the documented expression e0 op e1 op e2 ...)' % f, w, want, names)
                 if f in ('bitand', 'bitor', 'bitxor'):
                     # associative-commutative: compare the multiset of leaves of the operator tree
                     got = sorted(str(x) for x in atoms_of_tree(p.ret, f)); want = sorted(str(x) for x in A)
